@@ -1117,5 +1117,7 @@ C16.assumptions = [
     'the text contains its terminator: Xml::parse is given a NUL-terminated buffer',
     'File::open / readAll / write deliver and store exactly the bytes of the file (C19); Error::getErrorString() after a failed open is the strerror text (compared: "No such file or directory")',
     'a reference kept from toElement() is not used after an operation that targets the slot it came from (harness protocol; otherwise it may dangle - ordinary C++ lifetime, outside the property)',
+    'for the acceptance judge (parseok / parseg) "a document that must be accepted" is what class WF of checks/C16.py generates: one XML 1.0 element without DTD, distinct attribute names, attribute values without literal line breaks, references limited to the predefined and decimal ones; comments wherever white space is allowed except directly behind a name; processing instructions (any body without ?>) and comments in front of the root',
+    'a Variant is not assigned to a content item of the element it owns itself (e.content[k] = v with e = v.toElement(): reference cycle in the code, proposed open finding; outside the operation alphabet of spec, model and harness)',
 ]
 CHECK = C16
